@@ -223,21 +223,36 @@ def gen_cases(ctx, budget_s, composite=True, max_trials=6, gen_fn=None, corpus=T
             pending = [x for x in pending if prefer(x)] + [x for x in pending if not prefer(x)]
     t_corpus = ctx.elapsed() + budget_s * 0.6
     while ctx.elapsed() < t_end:
+        from_corpus = False
         if pending and ctx.elapsed() < t_corpus:
             desc = pending.pop(0)
             ctx.count("design.corpus")
+            from_corpus = True
         else:
             desc = gen_fn(g) if gen_fn else O.gen_design(g, composite=composite)
         case = O.Case(ctx, desc)
         n += 1
         if not case.build():
             ctx.count("design.rejected")
+            if from_corpus and case.geo["error"] is None:
+                # every design of the boundary corpus is one the documentation allows (and the unchanged library
+                # accepts): a constructor that refuses it now has broken whatever property is being checked
+                corpus_rejected(ctx, case)
+                return
             continue
         ctx.count("design." + desc["block"]["k"])
         case.regs = regions(desc, case.geo)
         for r in case.regs:
             ctx.count("region." + r)
         yield case
+
+
+def corpus_rejected(ctx, case):
+    """A design of the boundary corpus that the constructors refuse although the documentation allows it (Spec.geo
+    reports no error; the unchanged library accepts every corpus design): reported as a failure."""
+    if case.geo is not None and case.geo.get("error") is None:
+        case.regs = set()
+        report(ctx, "rejected", case, "a design the documentation allows is rejected at construction: %s" % case.reject)
 
 
 def has_weights(desc):
@@ -913,6 +928,8 @@ def replay_design(ctx, r):
     case = O.Case(ctx, r["desc"])
     if not case.build():
         print("design is rejected now:", case.reject)
+        if r.get("check") == "rejected" and case.geo["error"] is None:
+            ctx.fail("a design the documentation allows is rejected at construction: %s" % case.reject, r)
         return
     case.regs = set()
     chk = r.get("check")
